@@ -35,7 +35,10 @@ c02_request_maps_root.diff C02
 c02_single_copy_drops_request.diff C02
 c02_single_wrong_summary.diff C02
 c02_copy_loses_mappings.diff C02
+c02_consolidate_mappings_first_only.diff C02
 c13_skip_forbidden_when_member_of.diff C13
+c05_reshaper_guard_one_sided.diff C05
+c05_reshaper_drops_empty_inventory.diff C05
 EOM
 run_one() {
   patch=$1; prop=$2; id=$3
